@@ -108,8 +108,14 @@ func arenaRules(lr nasType.QoSRules) (intact func() bool) {
 
 func libRules(rs []refconv.QRule) nasType.QoSRules {
 	out := nasType.QoSRules{}
-	for _, r := range rs {
+	for i, r := range rs {
 		lr := nasType.QoSRule{Identifier: r.ID, Operation: nasType.QoSRuleOperationCode(r.Op), DQR: r.DQR, Precedence: r.Prec, Segregation: r.Seg, QFI: r.QFI}
+		if i > 0 && len(r.Filters) > 0 && len(rs[i-1].Filters) == len(r.Filters) && &r.Filters[0] == &rs[i-1].Filters[0] {
+			// the model shares one filter list between the two rules: so does the library value
+			lr.PacketFilterList = out[i-1].PacketFilterList
+			out = append(out, lr)
+			continue
+		}
 		for _, f := range r.Filters {
 			lf := nasType.PacketFilter{Identifier: f.ID, Direction: nasType.PacketFilterDirection(f.Dir)}
 			for _, q := range f.Comps {
@@ -168,6 +174,22 @@ func rulesEqual(a, b []refconv.QRule) string {
 	return ""
 }
 
+// normRules is what a parser can recover: a "delete packet filters" rule carries
+// bare identifiers, whatever the list it was built from holds besides.
+func normRules(rs []refconv.QRule) []refconv.QRule {
+	out := make([]refconv.QRule, len(rs))
+	for i, r := range rs {
+		out[i] = r
+		if r.Op == 5 {
+			out[i].Filters = nil
+			for _, f := range r.Filters {
+				out[i].Filters = append(out[i].Filters, refconv.QFilter{ID: f.ID})
+			}
+		}
+	}
+	return out
+}
+
 func genRules(r *prng.Rand, n int, compCycle int) []refconv.QRule {
 	var out []refconv.QRule
 	for i := 0; i < n; i++ {
@@ -181,6 +203,16 @@ func genRules(r *prng.Rand, n int, compCycle int) []refconv.QRule {
 			}
 		case 5:
 			nf = r.Intn(16)
+		}
+		if i > 0 && len(out[i-1].Filters) > 0 && r.Chance(1, 5) {
+			// one filter list used by two consecutive rules (create these filters / delete
+			// these filters, or the same filters under two rule identifiers): the SAME slice
+			ru.Filters = out[i-1].Filters
+			if ru.Op != 5 && out[i-1].Op == 5 {
+				ru.Op = 5 // a list of bare identifiers has no contents to give to a non-delete rule
+			}
+			out = append(out, ru)
+			continue
 		}
 		for j := 0; j < nf; j++ {
 			f := refconv.QFilter{ID: byte(r.Intn(16)), Dir: byte(1 + r.Intn(3))}
@@ -286,7 +318,7 @@ func c15Rules(c *core.Ctx, k *core.Case) {
 		c.Fail(k, "rules-roundtrip", "parsed list does not re-marshal: "+err.Error())
 		return
 	}
-	if d := rulesEqual(model, bm); d != "" {
+	if d := rulesEqual(normRules(model), bm); d != "" {
 		c.Fail(k, "rules-roundtrip", fmt.Sprintf("parse(serialise(x)) != x: %s (bytes %s)", d, hx(want)))
 	}
 	for _, ru := range model {
@@ -516,7 +548,7 @@ func init() {
 			"a trailing fragment dropped at end of input is 'a value', not a violation",
 			"component values are compared through the component's own MarshalBinary (octet form)",
 		},
-		Oracles:      map[string]func(*core.Ctx, *core.Case){"rules-roundtrip": c15Rules, "descs-roundtrip": c15Descs, "unknown-id": c15UnknownID, "total": c15Total, "total-sweep": c15Sweep},
+		Oracles:      map[string]func(*core.Ctx, *core.Case){"cold-concurrent": coldConcurrent, "rules-roundtrip": c15Rules, "descs-roundtrip": c15Descs, "unknown-id": c15UnknownID, "total": c15Total, "total-sweep": c15Sweep},
 		StallSeconds: 30,
 		Floors: func(tier string, cov map[string]map[string]int64, cnt map[string]int64) []string {
 			var f []string
@@ -609,6 +641,7 @@ func init() {
 				}
 			}
 		}
+		us = append(us, coldUnit("nasType", "qos", "handoff"))
 		return us
 	}
 	core.Register(p)
